@@ -50,6 +50,13 @@ func zzAccounted(s *Store[uint64, uint64], label string) {
 		vfAssert(label+":not-flagged-removed", !e.flag.IsRemoved() && !e.flag.IsDeleted())
 	})
 	p := s.policy
+	// the region flag of every listed entry names the list it is on, and only that one
+	for _, l := range []*List[uint64, uint64]{p.window, p.slru.probation, p.slru.protected} {
+		for e := l.Front(); e != nil; e = e.Next(l.listType) {
+			vfAssert(label+":region-flag-names-the-list", e.flag.IsWindow() == (l.listType == LIST_WINDOW) &&
+				e.flag.IsProbation() == (l.listType == LIST_PROBATION) && e.flag.IsProtected() == (l.listType == LIST_PROTECTED))
+		}
+	}
 	lists := p.window.len + p.slru.probation.len + p.slru.protected.len
 	vfAssert(label+":resident-cost-equals-policy-total", mapCost == int64(p.weightedSize))
 	vfAssert(label+":policy-total-equals-region-sum", lists == int64(p.weightedSize))
